@@ -174,7 +174,8 @@ def _loads(root_inc: int, chain: bool, nested_inc: int,
         try:
             cfg.loads(doc, format="mem")
         except Exception as exc:  # noqa: BLE001
-            return hold("fail", should_fail, "load with resolvable includes failed: %r" % (exc,))
+            # (lazy label: the error now carries the configuration object, which must not be rendered while tracing)
+            return hold("fail", should_fail, lambda: "load with resolvable includes failed: %r" % (exc,))
         hold("equiv", not should_fail, "load succeeded although an include path is missing or a directory")
         want = _schema("/cfg")()
         want.load_tree(ref)
